@@ -182,7 +182,12 @@ class Namespace:
             base = it[spec]
             # (native_arrays: the class exactly as the library creates and NAMES it - after item type and shape only, so that
             #  arrays of different axis order are namesakes)
-            c = base if getattr(self, "native_arrays", False) else type(base)(f"{self.prefix}A{self.fresh()}", (base,), {})
+            native = getattr(self, "native_arrays", False)
+            if native == "first":       # the library's own name for the first type that claims it in this namespace, unique names for later
+                taken = self.__dict__.setdefault("native_taken", set())     # namesakes (no two classes of one namespace share a name)
+                native = base.__name__ not in taken
+                taken.add(base.__name__)
+            c = base if native else type(base)(f"{self.prefix}A{self.fresh()}", (base,), {})
         elif kind == "ref":
             c = xo.Ref[self.cls(tx["to"])]
         elif kind == "uref":
@@ -378,6 +383,19 @@ class Gen:
                 if all(x is not None for row in items for x in row):
                     dims = tuple(int(d) for d, decl in zip(sh, tx["sh"]) if decl < 0)
                     return {"sh": sh, "it": items}, (Dims(dims) if len(dims) > 1 else dims[0])
+            if (it["k"] == "sc" and len(sh) > 1 and n > 0 and like is None and not _inarr and not _noxobj and self.np_forms
+                    and rng.random() < getattr(self, "namesake_p", 0.15)):
+                # "another xobject" of a NAMESAKE class: the library names array classes after item type and shape only, so an array of
+                # the same item type and shape with ANOTHER axis order carries the same class name; as a source it holds the same items
+                # (by index) in another memory order
+                others = [list(p) for p in itertools.permutations(range(len(sh))) if list(p) != list(tx["ord"])]
+                o2 = rng.choice(others)
+                try:
+                    ncls = self.ns.cls(it)[tuple(slice(None if d < 0 else d, o) for d, o in zip(tx["sh"], o2))]
+                    a = np.array([np.frombuffer(bytes(v[0]), dtype=it["np"].lower())[0] for v in vs], dtype=it["np"].lower()).reshape(sh)
+                    return inp, ncls(a)
+                except Exception:       # noqa (the source could not be built: fall through to the other forms)
+                    pass
             if it["k"] == "sc" and self.np_forms and not _inarr and rng.random() < 0.5:     # (a list of ndarrays is not a promised input form)
                 a = np.array([np.frombuffer(bytes(v[0]), dtype=it["np"].lower())[0] for v in vs], dtype=it["np"].lower()).reshape(sh)
                 form = rng.choice(["C", "F", "strided"]) if len(sh) > 1 or n > 1 else "C"
